@@ -171,8 +171,15 @@ def unfitted_step(rng, w):
 def call_step(rng, w, unseen_rate=0.06):
     P, pool = w["P"], w["pool"]
     r = rng.random()
-    if w["prev_rows"] is not None and r < 0.3:
+    if w["prev_rows"] is not None and r < 0.2:
         rows, rk = w["prev_rows"], "same"       # same rows, other labels: label independence, directly
+    elif w["prev_rows"] is not None and r < 0.38:
+        # a frame of the SAME SHAPE as the previous one but other rows: an output buffer reused between calls would
+        # overwrite the result the caller still holds
+        n = len(w["prev_rows"])
+        rows, rk = [rng.randrange(P) for _ in range(n)], "sameshape"
+        if rows == w["prev_rows"]:
+            rows = rows[1:] + [(rows[0] + 1) % P]
     elif r < 0.45:
         rows, rk = list(range(P)), "all"
     elif r < 0.6:
@@ -185,6 +192,8 @@ def call_step(rng, w, unseen_rate=0.06):
     for col in pool["cat"]["cols"]:
         if all(col[r_] < 0 for r_ in rows):
             rows = rows + [rng.pick([i for i in range(P) if col[i] >= 0])]
+    if rk == "sameshape" and len(rows) != len(w["prev_rows"]):
+        rk = "multiset"
     w["prev_rows"] = rows
     lk = rng.pick(LABEL_KINDS)
     y = other_labels(rng, w["task"], len(rows), w["k"], lk, sel_labels(w["ypool"], rows))
@@ -418,7 +427,19 @@ def run(case):
     from torch_frame.transforms import CatToNumTransform
     ts, saved = {}, {}
     out = []
-    for st in case["steps"]:
+    held = []          # results of earlier calls the "caller" still holds: (step, numerical tensor, recorded cells)
+
+    def read_cols(x):
+        return [[cell(v) for v in x[:, j].tolist()] for j in range(x.shape[1])]
+
+    def clobbered():
+        return [k0 for k0, x0, cols0 in held if tuple(x0.shape) != (len(cols0[0]), len(cols0))
+                or read_cols(x0) != cols0]
+
+    def storage(x):
+        return x.untyped_storage().data_ptr() if x.numel() else None
+
+    for step_idx, st in enumerate(case["steps"]):
         i = st.get("inst", 0)
         if i not in ts:
             ts[i] = CatToNumTransform()
@@ -461,7 +482,8 @@ def run(case):
             try:
                 r = t(tf)
             except Exception as ex:
-                out.append({"ok": False, "exc": C.exc_name(ex), "src_same": same_snapshot(tf, snap)})
+                out.append({"ok": False, "exc": C.exc_name(ex), "src_same": same_snapshot(tf, snap),
+                            "clobbered": clobbered()})
                 continue
             rec = {"ok": True, "src_same": same_snapshot(tf, snap), "is_new": r is not tf,
                    "has_cat": stype.categorical in r.feat_dict or stype.categorical in r.col_names_dict,
@@ -469,8 +491,16 @@ def run(case):
             if stype.numerical in r.feat_dict:
                 x = r.feat_dict[stype.numerical]
                 rec["names"] = [str(n) for n in r.col_names_dict[stype.numerical]]
-                rec["cols"] = [[cell(v) for v in x[:, j].tolist()] for j in range(x.shape[1])]
+                rec["cols"] = read_cols(x)
                 rec["dtype"] = str(x.dtype)
+                # results of EARLIER calls are values the caller owns: this call may neither change them nor return
+                # a tensor that shares storage with one of them or with the input
+                rec["clobbered"] = clobbered()
+                rec["aliases"] = [k0 for k0, x0, _ in held if storage(x0) is not None and storage(x0) == storage(x)]
+                rec["aliases_input"] = any(storage(v) is not None and storage(v) == storage(x)
+                                           for v in tf.feat_dict.values())
+                if x.shape[1] > 0 and x.shape[0] > 0:
+                    held.append((step_idx, x, rec["cols"]))
             else:
                 rec["names"], rec["cols"] = [], []
             rec["nrows"] = r.num_rows
@@ -606,6 +636,15 @@ def oracle(case, obs):
             tol = tols.get(inst, Fr(1, 10 ** 6))
             if not o.get("src_same", True):
                 return fail(f"source-modified:{task}", f"step {k}: the transform modified the input frame", observed=o)
+            if o.get("clobbered"):
+                return fail(f"result-overwritten:{task}", f"step {k}: this call changed the result returned at step "
+                            f"{o['clobbered'][0]}, which the caller still holds (rows: {st.get('rows')}, numerical "
+                            f"columns: {len(st['frame']['num']['names']) if st['frame']['num'] else 0})",
+                            observed=o.get("cols"))
+            if o.get("aliases") or o.get("aliases_input"):
+                return fail(f"result-aliased:{task}", f"step {k}: the returned numerical tensor shares storage with "
+                            + (f"the result of step {o['aliases'][0]}" if o.get("aliases") else "an input tensor"),
+                            observed=dict(aliases=o.get("aliases"), aliases_input=o.get("aliases_input")))
             if fi is None:
                 if o["ok"]:
                     return fail("no-raise:unfitted", f"step {k}: transform used before fit returned a frame",
@@ -729,7 +768,8 @@ def stats(cases, obss):
          "unfitted_calls": 0, "unseen_calls": 0, "roundtrips": {}, "fit_errors": 0, "calls_with_missing": 0,
          "history_len": {}, "instances": {}, "calls_after_another_instance_was_fitted": 0,
          "repeated_frame_calls": 0, "loads_of_saved_state": 0, "name_clash_fits": 0,
-         "lookalike_names_without_clash": 0}
+         "lookalike_names_without_clash": 0, "same_shape_other_data_after_call": 0,
+         "same_shape_other_data_without_numerical": 0}
     for c, o in zip(cases, obss):
         if c is None:
             continue
@@ -739,6 +779,7 @@ def stats(cases, obss):
         ni = len({s_.get("inst", 0) for s_ in c["steps"]})
         d["instances"][ni] = d["instances"].get(ni, 0) + 1
         fit_order = []
+        last_shape = {}
         for st, ob in zip(c["steps"], (o or {}).get("steps", [])):
             inst = st.get("inst", 0)
             if st["op"] == "fit":
@@ -772,6 +813,12 @@ def stats(cases, obss):
                 d["calls_with_missing"] += int(any(v < 0 for col in st["frame"]["cat"]["cols"] for v in col))
                 d["calls_after_another_instance_was_fitted"] += int(inst in fit_order and fit_order[-1] != inst)
                 d["repeated_frame_calls"] += int(st.get("rows") == "repeat")
+                shape = (inst, len(st["frame"]["cat"]["cols"][0]), st["frame"]["num"] is None)
+                if ob["ok"] and last_shape.get(inst) == shape and st.get("rows") not in ("same", "repeat"):
+                    d["same_shape_other_data_after_call"] += 1
+                    d["same_shape_other_data_without_numerical"] += int(st["frame"]["num"] is None)
+                if ob["ok"]:
+                    last_shape[inst] = shape
     return d
 
 
@@ -838,7 +885,7 @@ def coq_term(case, obs):
     if any(v == "inf" for o in obs["steps"] for c in o.get("cols", []) for v in c):
         return "false"
     if any(not o.get("src_same", True) or not o.get("is_new", True) or not o.get("y_same", True)
-           for o in obs["steps"]):
+           or o.get("clobbered") or o.get("aliases") or o.get("aliases_input") for o in obs["steps"]):
         return "false"               # the model's purity assumption (call = forward of an untouched copy) is violated
     if any(st["op"] in ("save", "load", "roundtrip") and not o["ok"] for st, o in zip(case["steps"], obs["steps"])):
         return "false"
@@ -864,7 +911,7 @@ def sanity(cases, obss):
     for k in LABEL_KINDS:
         if d["labels"].get(k, 0) == 0:
             probs.append(f"label content '{k}' never drawn")
-    for k in ("all", "single", "subset", "multiset", "same", "repeat"):
+    for k in ("all", "single", "subset", "multiset", "same", "repeat", "sameshape"):
         if d["rows"].get(k, 0) == 0:
             probs.append(f"row selection '{k}' never drawn")
     if d["nnum"].get(0, 0) == 0 or sum(v for k_, v in d["nnum"].items() if k_ > 0) == 0:
@@ -877,7 +924,8 @@ def sanity(cases, obss):
     if d["fit_errors"] > 0.2 * d["total"]:
         probs.append(f"{d['fit_errors']} fits raise")
     for k in ("unfitted_calls", "unseen_calls", "calls_with_missing", "calls_after_another_instance_was_fitted",
-              "repeated_frame_calls", "loads_of_saved_state", "name_clash_fits", "lookalike_names_without_clash"):
+              "repeated_frame_calls", "loads_of_saved_state", "name_clash_fits", "lookalike_names_without_clash",
+              "same_shape_other_data_after_call", "same_shape_other_data_without_numerical"):
         if d[k] == 0:
             probs.append(f"{k} = 0")
     if sum(v for k_, v in d["instances"].items() if k_ >= 2) == 0:
